@@ -146,9 +146,10 @@ def script_num_size(n):
 
 
 def dump_stats(ctx, dump):
-    """(uncompressed key pushes, pk_cost surplus of multi_a nodes) of a prefix dump, from the documented defects"""
+    """(uncompressed pk_k pushes, pk_cost surplus of multi_a nodes, all uncompressed key pushes) of a prefix
+    dump: the quantities the documented defects are functions of"""
     toks = dump.split(" ")
-    unc, surplus, i = 0, 0, 0
+    unc, surplus, unc_all, i = 0, 0, 0, 0
 
     def is_unc(t):
         if ctx == "tap":
@@ -157,7 +158,7 @@ def dump_stats(ctx, dump):
     while i < len(toks):
         t = toks[i]
         if t == "pk_k":
-            unc += is_unc(toks[i + 1]); i += 2
+            unc += is_unc(toks[i + 1]); unc_all += is_unc(toks[i + 1]); i += 2
         elif t in ("multi", "sortedmulti", "multi_a", "sortedmulti_a"):
             k, n = int(toks[i + 1]), int(toks[i + 2])
             ks = toks[i + 3:i + 3 + n]
@@ -165,11 +166,11 @@ def dump_stats(ctx, dump):
                 num_cost = 2 + (k > 16) + (n > 16)
                 surplus += num_cost - script_num_size(k) - 1
             else:
-                unc += sum(is_unc(x) for x in ks)
+                unc_all += sum(is_unc(x) for x in ks)   # pk_cost of multi is right since /repo 5d25865d
             i += 3 + n
         else:
             i += 1
-    return unc, surplus
+    return unc, surplus, unc_all
 
 
 # ------------------------------------------------------------------ the oracle
@@ -207,9 +208,9 @@ def judge(c):
                 key = "noncanonical-accept:%s" % c["kind"].replace("edit:", "")
             out.append((key, "%s decoder (%s) accepts %s as `%s` whose encoding is %s" % (c["ctx"], tag, c["hex"][:300], dump[:200], re_[:300]),
                         replay_obj(c, mode=tag, decoded=dump, reencoded=re_, failed_clause="accepted bytes are not the canonical encoding of the returned miniscript")))
-        unc, surplus = dump_stats(c["ctx"], dump)
+        unc, surplus, unc_all = dump_stats(c["ctx"], dump)
         if sz != blen(re_):
-            if c["ctx"] == "segwitv0" and unc > 0 and sz == blen(re_) - 32 * unc:
+            if c["ctx"] == "segwitv0" and unc_all > 0 and sz == blen(re_) - 32 * unc_all:
                 key = "size-uncompressed-key-segwitv0"
             else:
                 key = "script-size:%s" % dump.split(" ")[0]
@@ -227,7 +228,7 @@ def judge(c):
     if c["kind"] in ("gen", "replay") and "enc" in c:
         e = c["enc"]
         ehex, sz, pc, ty, cons_ok = e[0], int(e[1]), int(e[2]), e[4], e[5] == "1"
-        unc, surplus = dump_stats(c["ctx"], c["src"])
+        unc, surplus, _ = dump_stats(c["ctx"], c["src"])
         if sz != blen(ehex):
             out.append(("script-size:%s" % c["src"].split(" ")[0], "%s script_size() = %d but encode() has %d bytes for `%s`" % (c["ctx"], sz, blen(ehex), c["src"][:200]),
                         replay_obj(c, script_size=sz, encoded_len=blen(ehex), failed_clause="script_size() != len(encode())")))
